@@ -150,7 +150,7 @@ def tree_summary(fcp):
 
 def run(chk):
     quick = chk.tier == "quick"
-    n, nfmt = (220, 2) if quick else (5000, 4)
+    n, nfmt = (220, 2) if quick else (1500, 4)
     broken = chk.proof_obligations(["Corr/Front.vo", "Corr/FrontPrint.vo"])
     chk.coverage["rule"] = (
         "descriptions using every production (structs with nested types to depth 3, several parameters per field, enums with negative values, "
